@@ -99,7 +99,8 @@ def step (line : String) : String :=
       let full := solverRun cfg (schedOf ve) sanity N f
       let part := solverRun cfg (schedOf ve) sanity k f
       let res := if old then resumeOld cfg (schedOf ve) N (save part) else resume cfg (schedOf ve) N (save part)
-      return showRats res.θ ++ " | " ++ showOpt res.opt ++ " | full " ++ showRats full.θ ++ " | " ++ showOpt full.opt
+      return showRats res.θ ++ " | " ++ showOpt res.opt ++ " | full " ++ showRats full.θ ++ " | " ++ showOpt full.opt ++
+        " | reg " ++ showNats (registry s)
     | "files" => do
       let N ← nat; let iv ← nat
       let o ← optSpec; let s ← spec
